@@ -16,7 +16,9 @@ fn dlog_table() -> &'static HashMap<[u8; 32], (Sc, u8)> {
         let mut m = HashMap::new();
         for (a, p) in pool().pts.iter() {
             for t in 0..8u8 {
-                m.insert(p.add(&torsion()[t as usize]).compress(), (*a, t));
+                let q = p.add(&torsion()[t as usize]);
+                m.insert(q.neg().compress(), (a.neg(), (8 - t) % 8));
+                m.insert(q.compress(), (*a, t));
             }
         }
         for t in 0..8u8 {
